@@ -67,6 +67,16 @@ def setup_env(P, servertype):
 def gen_history(r, n):
     steps = []
     idpool = ["alpha", "beta", "gamma", "Pyro.Daemon", "hub", "", "obj_fixed"]
+    if r.random() < 0.4:
+        # interaction prefix: two objects of ONE class (weakly / strongly / under generated ids), one of them leaves, the other one is returned
+        same = r.choice([(0, 1), (1, 3), (3, 0), (2, 4), (4, 2)])
+        a, b = same
+        ser = r.choice(fixture.SERIALIZERS)
+        steps.append(("register", a, r.choice(["alpha", None]), False, r.random() < 0.6))
+        steps.append(("register", b, r.choice(["beta", None]), False, r.random() < 0.3))
+        steps.append(r.choice([("unregister_obj", b), ("unregister_id", "beta"), ("unregister_id", "@gen"), ("del", b)]))
+        steps.append(("give", a, ser, False))
+        steps.append(("give", "@reg", ser, r.random() < 0.3))
     for _ in range(n):
         k = r.random()
         target = r.choice([0, 1, 2, 3, 4, "A", "B"])
@@ -86,7 +96,8 @@ def gen_history(r, n):
         elif k < 0.8:
             steps.append(("call", r.choice(idpool[:3] + ["@gen", "nosuch", "obj_fixed"])))
         elif k < 0.93:
-            steps.append(("give", r.choice([0, 1, 2, 3, 4]), r.choice(fixture.SERIALIZERS), r.random() < 0.2))
+            # "@reg": an object that is registered at that moment (chosen when the step runs), so that the auto-proxy path is exercised often
+            steps.append(("give", r.choice([0, 1, 2, 3, 4, "@reg", "@reg", "@reg", "@reg"]), r.choice(fixture.SERIALIZERS), r.random() < 0.2))
         elif k < 0.97:
             steps.append(("del", r.choice([0, 1, 2, 3, 4])))
         else:
@@ -296,6 +307,9 @@ def run_history(fx, pool, hist, rec, hh):
                     rec.count("calls_dispatched")
             elif kind == "give":
                 _, k, sername, nested = st
+                if k == "@reg":
+                    cands = [j for j in range(len(pool)) if len(model.ids_of(pool[j])) == 1 and id(pool[j]) not in model.ambiguous]
+                    k = cands[step % len(cands)] if cands else step % len(pool)
                 if sername == "marshal":
                     nested = False      # marshal converts only the top-level object; a nested ordinary object cannot be marshalled either
                 obj = pool[k]
